@@ -1,5 +1,360 @@
-import EnvVerif.Lemmas.Basic
+/-
+  Props/C17.lean — salting (`src/extension/salt.rs`, `add_assertion_salted` of
+  `src/base/assertions.rs`).
+
+  The salt bytes are an explicit argument of the model (`draw n` is what the RNG returns for
+  `n` bytes), so "random" is "arbitrary".  `add_salt()` itself (length proportional to the
+  serialized size) calls `Salt::new_for_size_using` of `bc-components`; that length contract
+  is a dependency contract checked by the oracle (DESIGN C17), not modelled here; everything
+  after the draw is `addSaltInstance`.
+
+  Collision freedom is never assumed globally: where a statement needs it, it takes
+  `CollFree h a b` (`h.H a = h.H b → a = b`) for the two images `a`, `b` named in the
+  statement, and `∀ b, (h.H b).Valid` (the hash returns 32 bytes).
+
+  Freshness hypotheses (`no assertion of e has the digest of the new element`) are needed:
+  the library ignores an add whose digest is already present (`c17_addSaltInstance_present`).
+-/
+import EnvVerif.Lemmas.ExtLemmas
 namespace EnvVerif
-/-- placeholder while the property theorems are being written -/
-theorem c17_sort_asc_id {as : List Env} (hs : AscDigests as) : sortByDigest as = as := sortByDigest_of_asc hs
+open Env AW ExtL
+
+/-! ### `add_salt_instance` -/
+
+/-- `add_salt_instance` never returns an error and never panics (any receiver) -/
+theorem c17_addSaltInstance_total (h : Hash) (e : Env) (salt : Bytes) :
+    ∃ r, addSaltInstance h e salt = .ok r :=
+  addAssertionUnwrap_isOk h e _ _
+
+/-- subject and existing assertions unchanged, exactly one new assertion: `'salt': Salt(bytes)` -/
+theorem c17_addSaltInstance_shape {h : Hash} {e r : Env} {salt : Bytes} (hi : Inv h e)
+    (hfresh : ∀ x ∈ e.assertions, x.digest ≠ (saltAssertion h salt).digest)
+    (hr : addSaltInstance h e salt = .ok r) :
+    r.subject = e.subject ∧
+    (∀ a, a ∈ r.assertions ↔ a ∈ e.assertions ∨ a = saltAssertion h salt) ∧
+    r.assertions.length = e.assertions.length + 1 ∧
+    r.assertions.Perm (e.assertions ++ [saltAssertion h salt]) ∧
+    saltAssertion h salt =
+      newAssertion h (newKnownValue h KV_SALT) (newLeaf h (.tagged TAG_SALT (.bytes salt))) := by
+  rw [addSaltInstance_eq] at hr
+  obtain ⟨hs, ha, _⟩ := add_ok hi (saltAssertion_slotOk h salt) hr
+  rw [normAdd_fresh hfresh] at ha
+  refine ⟨hs, ?_, ?_, ?_, rfl⟩
+  · intro a; rw [ha, mem_sortByDigest]; simp
+  · rw [ha, sortByDigest_length]; simp
+  · rw [ha]; exact sortByDigest_perm _
+
+example : ∃ r, Inv InvL.toyHash InvL.sNode ∧
+    (∀ x ∈ InvL.sNode.assertions, x.digest ≠ (saltAssertion InvL.toyHash [1,2,3,4,5,6,7,8]).digest) ∧
+    addSaltInstance InvL.toyHash InvL.sNode [1,2,3,4,5,6,7,8] = .ok r := by
+  obtain ⟨r, hr⟩ := c17_addSaltInstance_total InvL.toyHash InvL.sNode [1,2,3,4,5,6,7,8]
+  refine ⟨r, InvL.sNode_inv, ?_, hr⟩
+  have h1 : InvL.sA2.digest ≠ (saltAssertion InvL.toyHash [1,2,3,4,5,6,7,8]).digest := by decide +kernel
+  have h2 : InvL.sA1.digest ≠ (saltAssertion InvL.toyHash [1,2,3,4,5,6,7,8]).digest := by decide +kernel
+  simp [InvL.sNode, Env.assertions, h1, h2]
+
+/-- the salted envelope has exactly one more 'salt' assertion, and if it had none before, the
+salt is what the predicate lookup returns -/
+theorem c17_addSaltInstance_one_salt {h : Hash} {e r : Env} {salt : Bytes} (hi : Inv h e)
+    (hfresh : ∀ x ∈ e.assertions, x.digest ≠ (saltAssertion h salt).digest)
+    (hr : addSaltInstance h e salt = .ok r) :
+    (assertionsWithPredicate r (newKnownValue h KV_SALT)).Perm
+      (assertionsWithPredicate e (newKnownValue h KV_SALT) ++ [saltAssertion h salt]) ∧
+    (assertionsWithPredicate e (newKnownValue h KV_SALT) = [] →
+      assertionsWithPredicate r (newKnownValue h KV_SALT) = [saltAssertion h salt] ∧
+      objectForPredicate r (newKnownValue h KV_SALT) = .ok (newLeaf h (saltCbor salt))) := by
+  rw [addSaltInstance_eq] at hr
+  have hp := awp_add_perm (p := newKnownValue h KV_SALT) hi (saltAssertion_slotOk h salt) hfresh hr
+  have hm : matchesPred (saltAssertion h salt) (newKnownValue h KV_SALT) = true := by
+    simp [saltAssertion, matchesPred_newAssertion]
+  rw [hm] at hp
+  refine ⟨hp, ?_⟩
+  intro hnone
+  rw [hnone] at hp
+  have h1 := List.perm_singleton.1 hp
+  refine ⟨h1, ?_⟩
+  simp [objectForPredicate, assertionWithPredicate, h1, saltAssertion, newAssertion, Env.subject,
+    asObject]
+
+example : Inv InvL.toyHash InvL.sSubj ∧
+    (∀ x ∈ InvL.sSubj.assertions, x.digest ≠ (saltAssertion InvL.toyHash [9]).digest) ∧
+    assertionsWithPredicate InvL.sSubj (newKnownValue InvL.toyHash KV_SALT) = [] :=
+  ⟨InvL.sSubj_inv, by simp [InvL.sSubj, newLeaf, Env.assertions],
+    by simp [InvL.sSubj, newLeaf, assertionsWithPredicate, Env.assertions]⟩
+
+/-- an add whose digest is already among the assertions is ignored (why the shape theorems
+carry a freshness hypothesis) -/
+theorem c17_addSaltInstance_present {h : Hash} {e r : Env} {salt : Bytes} (hi : Inv h e)
+    (hp : ∃ x ∈ e.assertions, x.digest = (saltAssertion h salt).digest)
+    (hr : addSaltInstance h e salt = .ok r) : r = e := by
+  rw [addSaltInstance_eq] at hr
+  exact add_present_eq hi (saltAssertion_slotOk h salt) hp hr
+
+example : Inv InvL.toyHash (nodeOf InvL.toyHash InvL.sSubj [saltAssertion InvL.toyHash [1]]) ∧
+    ∃ x ∈ (nodeOf InvL.toyHash InvL.sSubj [saltAssertion InvL.toyHash [1]]).assertions,
+      x.digest = (saltAssertion InvL.toyHash [1]).digest := by
+  refine ⟨⟨?_, ?_⟩, _, List.mem_singleton.2 rfl, rfl⟩
+  · simp [nodeOf, InvL.sSubj_inv.1, saltAssertion, newAssertion, newKnownValue, newLeaf]
+  · simp [nodeOf, InvL.sSubj_inv.2, saltAssertion, newAssertion, newKnownValue, newLeaf, AscDigests]
+
+/-! ### requested length / range -/
+
+theorem c17_addSaltWithLen_refuses_short (h : Hash) (e : Env) {count : Nat} (draw : Nat → Bytes)
+    (hc : count < 8) : addSaltWithLen h e count draw = .err "dep:Salt_length_is_too_short" := by
+  simp [addSaltWithLen, hc]
+
+theorem c17_addSaltWithLen_ok (h : Hash) (e : Env) {count : Nat} (draw : Nat → Bytes)
+    (hc : 8 ≤ count) : addSaltWithLen h e count draw = addSaltInstance h e (draw count) := by
+  simp [addSaltWithLen, Nat.not_lt.2 hc]
+
+theorem c17_addSaltInRange_refuses_short (h : Hash) (e : Env) {lo : Nat} (hi pick : Nat)
+    (draw : Nat → Bytes) (hc : lo < 8) :
+    addSaltInRange h e lo hi pick draw = .err "dep:Salt_length_is_too_short" := by
+  simp [addSaltInRange, hc]
+
+/-- the length `pick` chosen by the RNG lies in the requested closed range -/
+theorem c17_addSaltInRange_ok (h : Hash) (e : Env) {lo pick : Nat} (hi : Nat) (draw : Nat → Bytes)
+    (hc : 8 ≤ lo) (hp : lo ≤ pick) :
+    addSaltInRange h e lo hi pick draw = addSaltInstance h e (draw pick) := by
+  have : ¬ pick < 8 := by omega
+  simp [addSaltInRange, addSaltWithLen, Nat.not_lt.2 hc, this]
+
+/-- with an RNG that returns as many bytes as asked, a successful salting with a requested
+length or range added a salt of that length (at least 8), as `addSaltInstance` does -/
+theorem c17_salt_length {h : Hash} {e r : Env} {lo hi pick : Nat} {draw : Nat → Bytes}
+    (hdraw : ∀ n, (draw n).length = n) :
+    (addSaltWithLen h e pick draw = .ok r →
+      ∃ s, s.length = pick ∧ 8 ≤ s.length ∧ addSaltInstance h e s = .ok r) ∧
+    (lo ≤ pick → pick ≤ hi → addSaltInRange h e lo hi pick draw = .ok r →
+      ∃ s, lo ≤ s.length ∧ s.length ≤ hi ∧ 8 ≤ s.length ∧ addSaltInstance h e s = .ok r) := by
+  constructor
+  · intro hr
+    by_cases hc : pick < 8
+    · rw [c17_addSaltWithLen_refuses_short h e draw hc] at hr; cases hr
+    · rw [c17_addSaltWithLen_ok h e draw (Nat.not_lt.1 hc)] at hr
+      exact ⟨draw pick, hdraw pick, by rw [hdraw]; omega, hr⟩
+  · intro h1 h2 hr
+    by_cases hc : lo < 8
+    · rw [c17_addSaltInRange_refuses_short h e hi pick draw hc] at hr; cases hr
+    · rw [c17_addSaltInRange_ok h e hi draw (Nat.not_lt.1 hc) h1] at hr
+      exact ⟨draw pick, by rw [hdraw]; exact h1, by rw [hdraw]; exact h2, by rw [hdraw]; omega, hr⟩
+
+example : ∀ n, ((fun n => List.replicate n (7 : UInt8)) n).length = n := by simp
+
+/-! ### `add_assertion_salted` -/
+
+/-- `add_assertion_salted(p, o, salted)` is `add_assertion_envelope` of one element: the bare
+assertion when not salted, and when salted the assertion decorated with exactly one salt
+assertion of its own (a node whose subject is the assertion); it never fails -/
+theorem c17_addAssertionSalted_element (h : Hash) (e p o : Env) (salt : Option Bytes) :
+    addAssertionSalted h e p o salt = addAssertionEnvelope h e (saltedElement h p o salt) ∧
+    (∃ r, addAssertionSalted h e p o salt = .ok r) ∧
+    saltedElement h p o none = newAssertion h p o ∧
+    (∀ s, saltedElement h p o (some s) =
+      .node (newAssertion h p o) [saltAssertion h s]
+        (h.ofDigests [(newAssertion h p o).digest, (saltAssertion h s).digest])) ∧
+    (∀ s, addSaltInstance h (newAssertion h p o) s = .ok (saltedElement h p o (some s))) := by
+  refine ⟨addAssertionSalted_eq h e p o salt, ?_, rfl, fun _ => rfl,
+    fun s => addSaltInstance_assertion h p o s⟩
+  rw [addAssertionSalted_eq]
+  exact InvL.addAssertionEnvelope_isOk h (saltedElement_slotOk h p o salt)
+
+/-- the receiver's subject and other assertions are unchanged; the one element added is
+`saltedElement h p o salt` -/
+theorem c17_addAssertionSalted_shape {h : Hash} {e p o r : Env} {salt : Option Bytes} (hi : Inv h e)
+    (hfresh : ∀ x ∈ e.assertions, x.digest ≠ (saltedElement h p o salt).digest)
+    (hr : addAssertionSalted h e p o salt = .ok r) :
+    r.subject = e.subject ∧
+    (∀ a, a ∈ r.assertions ↔ a ∈ e.assertions ∨ a = saltedElement h p o salt) ∧
+    r.assertions.length = e.assertions.length + 1 ∧
+    r.assertions.Perm (e.assertions ++ [saltedElement h p o salt]) := by
+  rw [addAssertionSalted_eq] at hr
+  obtain ⟨hs, ha, _⟩ := add_ok hi (saltedElement_slotOk h p o salt) hr
+  rw [normAdd_fresh hfresh] at ha
+  refine ⟨hs, ?_, ?_, ?_⟩
+  · intro a; rw [ha, mem_sortByDigest]; simp
+  · rw [ha, sortByDigest_length]; simp
+  · rw [ha]; exact sortByDigest_perm _
+
+/-- the unsalted form draws nothing: its result is a function of `(e, p, o)` only, the one
+`add_assertion(p, o)` computes -/
+theorem c17_unsalted_deterministic (h : Hash) (e p o : Env) :
+    addAssertionSalted h e p o none = addAssertionEnvelope h e (newAssertion h p o) ∧
+    addAssertionSalted h e p o none = addAssertionUnwrap h e p o := by
+  rw [addAssertionUnwrap_eq]
+  exact ⟨addAssertionSalted_eq h e p o none, addAssertionSalted_eq h e p o none⟩
+
+/-- the added (possibly salted) assertion is still found by its predicate -/
+theorem c17_addAssertionSalted_found {h : Hash} {e p o r : Env} {salt : Option Bytes} (hi : Inv h e)
+    (hfresh : ∀ x ∈ e.assertions, x.digest ≠ (saltedElement h p o salt).digest)
+    (hr : addAssertionSalted h e p o salt = .ok r) :
+    saltedElement h p o salt ∈ assertionsWithPredicate r p := by
+  rw [mem_awp]
+  refine ⟨((c17_addAssertionSalted_shape hi hfresh hr).2.1 _).2 (Or.inr rfl), ?_⟩
+  cases salt with
+  | none => exact ⟨p, o, _, rfl, rfl⟩
+  | some s => exact ⟨p, o, _, rfl, rfl⟩
+
+/-- and when no other assertion of the receiver has that predicate, the object lookup returns
+the object -/
+theorem c17_addAssertionSalted_object {h : Hash} {e p o r : Env} {salt : Option Bytes} (hi : Inv h e)
+    (hfresh : ∀ x ∈ e.assertions, x.digest ≠ (saltedElement h p o salt).digest)
+    (hnone : assertionsWithPredicate e p = [])
+    (hr : addAssertionSalted h e p o salt = .ok r) :
+    assertionsWithPredicate r p = [saltedElement h p o salt] ∧ objectForPredicate r p = .ok o := by
+  rw [addAssertionSalted_eq] at hr
+  have hp := awp_add_perm (p := p) hi (saltedElement_slotOk h p o salt) hfresh hr
+  have hm : matchesPred (saltedElement h p o salt) p = true := by
+    cases salt <;> simp [saltedElement, saltedAssertion, matchesPred_assertion,
+      matchesPred_node_assertion, newAssertion]
+  rw [hm, hnone] at hp
+  have h1 := List.perm_singleton.1 hp
+  refine ⟨h1, ?_⟩
+  cases salt <;>
+    simp [objectForPredicate, assertionWithPredicate, h1, saltedElement, saltedAssertion,
+      newAssertion, Env.subject, asObject]
+
+example : Inv InvL.toyHash InvL.sNode ∧
+    (∀ x ∈ InvL.sNode.assertions, x.digest ≠
+      (saltedElement InvL.toyHash (newKnownValue InvL.toyHash 7) (newLeaf InvL.toyHash (.uint 5))
+        (some [1,2,3,4,5,6,7,8])).digest) ∧
+    assertionsWithPredicate InvL.sNode (newKnownValue InvL.toyHash 7) = [] := by
+  refine ⟨InvL.sNode_inv, ?_, ?_⟩
+  · have h1 : InvL.sA2.digest ≠ (saltedElement InvL.toyHash (newKnownValue InvL.toyHash 7)
+        (newLeaf InvL.toyHash (.uint 5)) (some [1,2,3,4,5,6,7,8])).digest := by decide +kernel
+    have h2 : InvL.sA1.digest ≠ (saltedElement InvL.toyHash (newKnownValue InvL.toyHash 7)
+        (newLeaf InvL.toyHash (.uint 5)) (some [1,2,3,4,5,6,7,8])).digest := by decide +kernel
+    simp [InvL.sNode, Env.assertions, h1, h2]
+  · decide +kernel
+
+/-! ### decorrelation -/
+
+/-- Two saltings of the same envelope with different salts have different digests, hence so do
+their elided forms: the hash is assumed not to collide on (1) the two salt leaves' encodings,
+(2) the two salt assertions' images, (3) the two resulting nodes' images.  That independently
+drawn salts differ is a property of the RNG (observed by the oracle, not proved). -/
+theorem c17_salt_decorrelates {h : Hash} (hV : ∀ b, (h.H b).Valid) {e r1 r2 : Env} {s1 s2 : Bytes}
+    (hi : Inv h e) (hne : s1 ≠ s2)
+    (hfresh : ∀ x ∈ e.assertions, x.digest ≠ (saltAssertion h s1).digest)
+    (hr1 : addSaltInstance h e s1 = .ok r1) (hr2 : addSaltInstance h e s2 = .ok r2)
+    (c1 : CollFree h (saltCbor s1).enc (saltCbor s2).enc)
+    (c2 : CollFree h
+      (catDigests [(newKnownValue h KV_SALT).digest, (newLeaf h (saltCbor s1)).digest])
+      (catDigests [(newKnownValue h KV_SALT).digest, (newLeaf h (saltCbor s2)).digest]))
+    (c3 : CollFree h (catDigests (r1.subject.digest :: r1.assertions.map Env.digest))
+      (catDigests (r2.subject.digest :: r2.assertions.map Env.digest))) :
+    r1.digest ≠ r2.digest ∧ (elide r1).digest ≠ (elide r2).digest := by
+  rw [addSaltInstance_eq] at hr1 hr2
+  have hsa := saltAssertion_digest_ne hV hne c1 c2
+  have := add_digest_ne hV hi (saltAssertion_slotOk h s1) (saltAssertion_slotOk h s2)
+    (saltAssertion_digest_valid hV s1) (saltAssertion_digest_valid hV s2) hfresh hsa hr1 hr2 c3
+  exact ⟨this, by rwa [elide_digest, elide_digest]⟩
+
+example : ∃ r1 r2, (∀ b, (InvL.toyHash.H b).Valid) ∧ Inv InvL.toyHash InvL.sSubj ∧
+    ([1,2,3,4,5,6,7,8] : Bytes) ≠ [1,2,3,4,5,6,7,9] ∧
+    (∀ x ∈ InvL.sSubj.assertions, x.digest ≠ (saltAssertion InvL.toyHash [1,2,3,4,5,6,7,8]).digest) ∧
+    addSaltInstance InvL.toyHash InvL.sSubj [1,2,3,4,5,6,7,8] = .ok r1 ∧
+    addSaltInstance InvL.toyHash InvL.sSubj [1,2,3,4,5,6,7,9] = .ok r2 ∧
+    CollFree InvL.toyHash (saltCbor [1,2,3,4,5,6,7,8]).enc (saltCbor [1,2,3,4,5,6,7,9]).enc ∧
+    CollFree InvL.toyHash
+      (catDigests [(newKnownValue InvL.toyHash KV_SALT).digest,
+        (newLeaf InvL.toyHash (saltCbor [1,2,3,4,5,6,7,8])).digest])
+      (catDigests [(newKnownValue InvL.toyHash KV_SALT).digest,
+        (newLeaf InvL.toyHash (saltCbor [1,2,3,4,5,6,7,9])).digest]) ∧
+    CollFree InvL.toyHash (catDigests (r1.subject.digest :: r1.assertions.map Env.digest))
+      (catDigests (r2.subject.digest :: r2.assertions.map Env.digest)) := by
+  have hf : ∀ (s : Bytes), ∀ x ∈ InvL.sSubj.assertions, x.digest ≠ (saltAssertion InvL.toyHash s).digest := by
+    intro s x hx; simp [InvL.sSubj, newLeaf, Env.assertions] at hx
+  obtain ⟨r1, hr1⟩ := c17_addSaltInstance_total InvL.toyHash InvL.sSubj [1,2,3,4,5,6,7,8]
+  obtain ⟨r2, hr2⟩ := c17_addSaltInstance_total InvL.toyHash InvL.sSubj [1,2,3,4,5,6,7,9]
+  obtain ⟨hs1, _, _, hp1, _⟩ := c17_addSaltInstance_shape InvL.sSubj_inv (hf _) hr1
+  obtain ⟨hs2, _, _, hp2, _⟩ := c17_addSaltInstance_shape InvL.sSubj_inv (hf _) hr2
+  have ha1 := List.perm_singleton.1 hp1
+  have ha2 := List.perm_singleton.1 hp2
+  refine ⟨r1, r2, InvL.toyHash_valid, InvL.sSubj_inv, by decide, hf _, hr1, hr2, by decide +kernel,
+    by decide +kernel, ?_⟩
+  rw [hs1, hs2, ha1, ha2]
+  decide +kernel
+
+/-- the same for an assertion added as salted: the two decorated assertions (and their elided
+forms, which is what a holder of a redacted copy sees) have different digests, while the
+unsalted assertion has one digest only -/
+theorem c17_salted_assertion_decorrelates {h : Hash} (hV : ∀ b, (h.H b).Valid) (p o : Env)
+    {s1 s2 : Bytes} (hne : s1 ≠ s2)
+    (c1 : CollFree h (saltCbor s1).enc (saltCbor s2).enc)
+    (c2 : CollFree h
+      (catDigests [(newKnownValue h KV_SALT).digest, (newLeaf h (saltCbor s1)).digest])
+      (catDigests [(newKnownValue h KV_SALT).digest, (newLeaf h (saltCbor s2)).digest]))
+    (c3 : CollFree h
+      (catDigests [(newAssertion h p o).digest, (saltAssertion h s1).digest])
+      (catDigests [(newAssertion h p o).digest, (saltAssertion h s2).digest])) :
+    (saltedElement h p o (some s1)).digest ≠ (saltedElement h p o (some s2)).digest ∧
+    (elide (saltedElement h p o (some s1))).digest ≠ (elide (saltedElement h p o (some s2))).digest ∧
+    (elide (saltedElement h p o none)).digest = (newAssertion h p o).digest := by
+  have := saltedAssertion_digest_ne hV p o (saltAssertion_digest_ne hV hne c1 c2) c3
+  exact ⟨this, by rw [elide_digest, elide_digest]; exact this, elide_digest _⟩
+
+example : (∀ b, (InvL.toyHash.H b).Valid) ∧ ([1,2,3,4,5,6,7,8] : Bytes) ≠ [1,2,3,4,5,6,7,9] ∧
+    CollFree InvL.toyHash (saltCbor [1,2,3,4,5,6,7,8]).enc (saltCbor [1,2,3,4,5,6,7,9]).enc ∧
+    CollFree InvL.toyHash
+      (catDigests [(newKnownValue InvL.toyHash KV_SALT).digest,
+        (newLeaf InvL.toyHash (saltCbor [1,2,3,4,5,6,7,8])).digest])
+      (catDigests [(newKnownValue InvL.toyHash KV_SALT).digest,
+        (newLeaf InvL.toyHash (saltCbor [1,2,3,4,5,6,7,9])).digest]) ∧
+    CollFree InvL.toyHash
+      (catDigests [(newAssertion InvL.toyHash (newKnownValue InvL.toyHash 7)
+          (newLeaf InvL.toyHash (.uint 5))).digest,
+        (saltAssertion InvL.toyHash [1,2,3,4,5,6,7,8]).digest])
+      (catDigests [(newAssertion InvL.toyHash (newKnownValue InvL.toyHash 7)
+          (newLeaf InvL.toyHash (.uint 5))).digest,
+        (saltAssertion InvL.toyHash [1,2,3,4,5,6,7,9]).digest]) :=
+  ⟨InvL.toyHash_valid, by decide, by decide +kernel, by decide +kernel, by decide +kernel⟩
+
+/-- and the envelopes that received the two salted assertions differ in digest as well -/
+theorem c17_salted_add_decorrelates {h : Hash} (hV : ∀ b, (h.H b).Valid) {e r1 r2 p o : Env}
+    {s1 s2 : Bytes} (hi : Inv h e) (hne : s1 ≠ s2)
+    (hfresh : ∀ x ∈ e.assertions, x.digest ≠ (saltedElement h p o (some s1)).digest)
+    (hr1 : addAssertionSalted h e p o (some s1) = .ok r1)
+    (hr2 : addAssertionSalted h e p o (some s2) = .ok r2)
+    (c1 : CollFree h (saltCbor s1).enc (saltCbor s2).enc)
+    (c2 : CollFree h
+      (catDigests [(newKnownValue h KV_SALT).digest, (newLeaf h (saltCbor s1)).digest])
+      (catDigests [(newKnownValue h KV_SALT).digest, (newLeaf h (saltCbor s2)).digest]))
+    (c3 : CollFree h
+      (catDigests [(newAssertion h p o).digest, (saltAssertion h s1).digest])
+      (catDigests [(newAssertion h p o).digest, (saltAssertion h s2).digest]))
+    (c4 : CollFree h (catDigests (r1.subject.digest :: r1.assertions.map Env.digest))
+      (catDigests (r2.subject.digest :: r2.assertions.map Env.digest))) :
+    r1.digest ≠ r2.digest ∧ (elide r1).digest ≠ (elide r2).digest := by
+  rw [addAssertionSalted_eq] at hr1 hr2
+  have hsa := (c17_salted_assertion_decorrelates hV p o hne c1 c2 c3).1
+  have := add_digest_ne hV hi (saltedElement_slotOk h p o _) (saltedElement_slotOk h p o _)
+    (saltedElement_digest_valid hV p o _) (saltedElement_digest_valid hV p o _) hfresh hsa hr1 hr2 c4
+  exact ⟨this, by rwa [elide_digest, elide_digest]⟩
+
+example : ∃ r1 r2, Inv InvL.toyHash InvL.sSubj ∧
+    (∀ x ∈ InvL.sSubj.assertions, x.digest ≠
+      (saltedElement InvL.toyHash (newKnownValue InvL.toyHash 7) (newLeaf InvL.toyHash (.uint 5))
+        (some [1,2,3,4,5,6,7,8])).digest) ∧
+    addAssertionSalted InvL.toyHash InvL.sSubj (newKnownValue InvL.toyHash 7)
+      (newLeaf InvL.toyHash (.uint 5)) (some [1,2,3,4,5,6,7,8]) = .ok r1 ∧
+    addAssertionSalted InvL.toyHash InvL.sSubj (newKnownValue InvL.toyHash 7)
+      (newLeaf InvL.toyHash (.uint 5)) (some [1,2,3,4,5,6,7,9]) = .ok r2 ∧
+    CollFree InvL.toyHash (catDigests (r1.subject.digest :: r1.assertions.map Env.digest))
+      (catDigests (r2.subject.digest :: r2.assertions.map Env.digest)) := by
+  have hf : ∀ (s : Option Bytes), ∀ x ∈ InvL.sSubj.assertions, x.digest ≠
+      (saltedElement InvL.toyHash (newKnownValue InvL.toyHash 7) (newLeaf InvL.toyHash (.uint 5)) s).digest := by
+    intro s x hx; simp [InvL.sSubj, newLeaf, Env.assertions] at hx
+  obtain ⟨r1, hr1⟩ := (c17_addAssertionSalted_element InvL.toyHash InvL.sSubj (newKnownValue InvL.toyHash 7)
+    (newLeaf InvL.toyHash (.uint 5)) (some [1,2,3,4,5,6,7,8])).2.1
+  obtain ⟨r2, hr2⟩ := (c17_addAssertionSalted_element InvL.toyHash InvL.sSubj (newKnownValue InvL.toyHash 7)
+    (newLeaf InvL.toyHash (.uint 5)) (some [1,2,3,4,5,6,7,9])).2.1
+  obtain ⟨hs1, _, _, hp1⟩ := c17_addAssertionSalted_shape InvL.sSubj_inv (hf _) hr1
+  obtain ⟨hs2, _, _, hp2⟩ := c17_addAssertionSalted_shape InvL.sSubj_inv (hf _) hr2
+  have ha1 := List.perm_singleton.1 hp1
+  have ha2 := List.perm_singleton.1 hp2
+  refine ⟨r1, r2, InvL.sSubj_inv, hf _, hr1, hr2, ?_⟩
+  rw [hs1, hs2, ha1, ha2]
+  decide +kernel
+
 end EnvVerif
